@@ -30,6 +30,7 @@
 //!                        | %% %+ (current job) | %- (previous job) | %N (job number N)
 //!   wu                   `wait 9999` (a pid that was never a child)
 //!   gl                   `( probe "$!" "$x"; wait $! )`: `$!` is inherited by the subshell (same value) but names no child of it (127)
+//!   ku                   `kill -s TERM 99999` (no such process: 1)
 //!   wx                   `wait -x` (invalid option, 2)         gj K   `( wait $jK )` (not the subshell's child, 127)
 //!   bn MS N              `nap MS N &` (a job that sleeps MS ms of virtual time, then exits N)
 //!   k SIG K              `kill -s SIG $jK`   SIG ∈ HUP INT QUIT KILL TERM USR1 STOP CONT
@@ -922,6 +923,8 @@ fn render_stmt(t: &str, nasync: &mut usize) -> Option<String> {
         ["gj", k] => format!("( wait $j{} )", k.parse::<usize>().ok().filter(|k| *k >= 1 && *k <= *nasync)?),
         // `$!` in a subshell: inherited (the probe inside shows the same value) but not waitable there (127)
         ["gl"] if *nasync >= 1 => "( probe \"$!\" \"$x\"; wait $! )".to_string(),
+        // a pid that is no process: `VirtualSystem::kill` answers ESRCH, the built-in fails with 1
+        ["ku"] => "kill -s TERM 99999".to_string(),
         ["wx"] => "wait -x".to_string(),
         ["scp", n] if *nasync == 0 => {
             // the same for the first member of a pipeline (`wait_for_subshell_to_finish`)
@@ -1234,7 +1237,9 @@ fn gen_jobs_program(r: &mut Rng, thorough: bool) -> String {
             }
             3..=6 if nopen < 3 => {
                 new_job(&mut jobs, &mut epoch, JKind::Nap, monitor);
-                format!("bn {} {st}", 1000 * jobs.len())
+                // mostly a nap no statement outlasts; sometimes a short one: if the job is stopped meanwhile its timer fires
+                // while it is stopped (the process is polled in the stopped state and parks until SIGCONT)
+                if r.chance(1, 3) { format!("bn 50 {st}") } else { format!("bn {} {st}", 1000 * jobs.len()) }
             }
             7..=10 => {
                 // a signal to a napping job that is certainly alive
@@ -1345,7 +1350,7 @@ fn gen_jobs_program(r: &mut Rng, thorough: bool) -> String {
                 }
                 continue;
             }
-            12 => (if r.chance(1, 2) { "ti" } else { "wx" }).to_string(),
+            12 => (*r.pick(&["ti", "wx", "ku"])).to_string(),
             13 if !jobs.is_empty() && r.chance(1, 2) => "gl".to_string(),
             13 if !jobs.is_empty() => format!("gj {}", 1 + r.below(jobs.len())),
             14 => {
@@ -1622,7 +1627,11 @@ fn gen_program(r: &mut Rng, thorough: bool) -> String {
     stmts.join("; ")
 }
 
-const FIXED_PROGRAMS: [&str; 66] = [
+const FIXED_PROGRAMS: [&str; 70] = [
+    "bn 50 7; k STOP 1; tw USR1 0; k CONT 1; wj 1; wj 2; w",
+    "bn 50 300; k STOP 1; tw HUP 3; g 4; ku; k CONT 1; wj 2 1; w",
+    "bg s1; bg s2; wj %st; wj 1 2; w",
+    "bn 1000 1; bn 2000 2; wj %nap u; wj 2 1; w",
     "tsq USR1 3 5; wj 1; w",
     "bg s2; tsf TERM 4 6; tsq HUP 0 7; wj 3 2 1; w",
     "bg s3; gl; g 4; gl; p s1 s2; gl; wj 1; gl; w",
